@@ -3,8 +3,7 @@
   (rank and index-freeness of well-typed expressions) and the structural induction over the
   dispatcher `Lower.lower`.
 -/
-import Mathlib.Algebra.Algebra.Basic
-import Mathlib.Algebra.Ring.PUnit
+import SympdeModel.Lemmas.LowerStep1
 import SympdeModel.Lemmas.LowerStep2
 set_option linter.unusedTactic false
 namespace Sympde.Lower
@@ -466,6 +465,66 @@ theorem nth_map_range (d : Nat) (f : Nat → E) (i : Nat) (hi : i < d) :
     nth ((List.range d).map f) i = f i := by
   simp [nth, List.getD, hi]
 
+/-! ### dispatch on the forms of the lowered arguments -/
+
+/-- a covered unary operator applied to a lowered argument: the leaf class returns a value, and
+    every value it returns is good -/
+theorem op1_dispatch (S : DRing K) (d : Nat) (hd : d = 1 ∨ d = 2 ∨ d = 3) (lg : Bool) (o : Op1)
+    (τa τ : Ty) (hty : ty1 d o τa = some τ) (cn : String) (hcn : op1Class o = some cn) (a a' : E)
+    (ga : Good S d lg τa a a') (hra : rank d a = rk τa) :
+    (∃ t, applyLeaf d ((if lg then "Logical" else "") ++ cn ++ "_" ++ toString d ++ "d") [a'] = .ok t) ∧
+    ∀ t, applyLeaf d ((if lg then "Logical" else "") ++ cn ++ "_" ++ toString d ++ "d") [a'] = .ok t →
+      Good S d lg τ (op1 o a) t := by
+  rcases shape_cases d τa a' ga.1 with ⟨hLS, hτ⟩ | ⟨es, rfl, hes, _, rfl⟩ | ⟨es, rfl, hes, _, rfl⟩
+  · exact op1_step_sc S d hd lg o τa τ hty cn hcn a a' hLS hτ hra ga.2
+  · exact op1_step_vec S d hd lg o .v τ hty cn hcn a es hes (Or.inl rfl) hra ga.2
+  · rcases hd with rfl | hd'
+    · exact op1_step_vec S 1 (Or.inl rfl) lg o .m τ hty cn hcn a es hes (Or.inr ⟨rfl, rfl⟩) hra ga.2
+    · exact op1_step_mat S d hd' lg o .m τ hty cn hcn a es hes rfl hra ga.2
+
+theorem op2_dispatch (S : DRing K) (d : Nat) (hd : d = 1 ∨ d = 2 ∨ d = 3) (lg : Bool) (o : Op2)
+    (τa τb τ : Ty) (hty : ty2 d o τa τb = some τ) (a b a' b' : E)
+    (ga : Good S d lg τa a a') (gb : Good S d lg τb b b')
+    (hra : rank d a = rk τa) (hrb : rank d b = rk τb) :
+    (∃ t, applyLeaf d (op2Name lg o d) [a', b'] = .ok t) ∧
+    ∀ t, applyLeaf d (op2Name lg o d) [a', b'] = .ok t → Good S d lg τ (op2 o a b) t := by
+  -- a scalar-typed argument next to a non-scalar one is ill-typed
+  have hsx : ∀ τ', ty2 d o .s τ' = some τ → τ' = .s := by
+    intro τ' h; cases o <;> cases τ' <;> simp_all [ty2]
+  have hxs : ∀ τ', ty2 d o τ' .s = some τ → τ' = .s := by
+    intro τ' h; cases o <;> cases τ' <;> simp_all [ty2]
+  rcases shape_cases d τa a' ga.1 with
+    ⟨hLSa, hτa⟩ | ⟨es, rfl, hes, _, rfl⟩ | ⟨es, rfl, hes, _, rfl⟩ <;>
+  rcases shape_cases d τb b' gb.1 with
+    ⟨hLSb, hτb⟩ | ⟨es', rfl, hes', _, rfl⟩ | ⟨es', rfl, hes', _, rfl⟩
+  · exact op2_step_sc_sc S d hd lg o τa τb τ hty a b a' b' hLSa hLSb hτa hτb hra hrb ga.2 gb.2
+  · rcases hτa with rfl | rfl
+    · exact absurd (hsx _ hty) (by decide)
+    · exact op2_step_sc_vec S lg o τa .v τ hty a b a' es' hLSa hes' hra hrb ga.2 gb.2
+  · rcases hτa with rfl | rfl
+    · exact absurd (hsx _ hty) (by decide)
+    · exact op2_step_sc_vec S lg o τa .m τ hty a b a' es' hLSa hes' hra hrb ga.2 gb.2
+  · rcases hτb with rfl | rfl
+    · exact absurd (hxs _ hty) (by decide)
+    · exact op2_step_vec_sc S lg o .v τb τ hty a b b' es hes hLSb hra hrb ga.2 gb.2
+  · exact op2_step_vec_vec S d hd lg o .v .v τ hty a b es es' hes hes' (Or.inl rfl)
+      (Or.inl rfl) hra hrb ga.2 gb.2
+  · rcases hd with rfl | hd'
+    · exact op2_step_vec_vec S 1 (Or.inl rfl) lg o .v .m τ hty a b es es' hes hes'
+        (Or.inl rfl) (Or.inr ⟨rfl, rfl⟩) hra hrb ga.2 gb.2
+    · exact op2_step_vec_mat S d hd' lg o .v .m τ hty a b es es' hes hes' rfl rfl hra hrb ga.2 gb.2
+  · rcases hτb with rfl | rfl
+    · exact absurd (hxs _ hty) (by decide)
+    · exact op2_step_vec_sc S lg o .m τb τ hty a b b' es hes hLSb hra hrb ga.2 gb.2
+  · rcases hd with rfl | hd'
+    · exact op2_step_vec_vec S 1 (Or.inl rfl) lg o .m .v τ hty a b es es' hes hes'
+        (Or.inr ⟨rfl, rfl⟩) (Or.inl rfl) hra hrb ga.2 gb.2
+    · exact op2_step_mat_vec S d hd' lg o .m .v τ hty a b es es' hes hes' rfl rfl hra hrb ga.2 gb.2
+  · rcases hd with rfl | hd'
+    · exact op2_step_vec_vec S 1 (Or.inl rfl) lg o .m .m τ hty a b es es' hes hes'
+        (Or.inr ⟨rfl, rfl⟩) (Or.inr ⟨rfl, rfl⟩) hra hrb ga.2 gb.2
+    · exact op2_step_mat_mat S d hd' lg o .m .m τ hty a b es es' hes hes' rfl rfl hra hrb ga.2 gb.2
+
 /-! ### the structural induction -/
 
 /-- **lowering a well-typed expression of the covered fragment preserves its classical meaning**,
@@ -613,14 +672,7 @@ theorem lower_ty_sound (S : DRing K) (d : Nat) (hd : d = 1 ∨ d = 2 ∨ d = 3) 
         rw [hla] at hl
         simp only at hl
         have ga := iha τa a' ha hla
-        have hra := ty_rank d a τa ha
-        rcases shape_cases d τa a' ga.1 with ⟨hLS, hτ⟩ | ⟨es, rfl, hes, _, rfl⟩ | ⟨es, rfl, hes, _, rfl⟩
-        · exact op1_step_sc S d hd lg o τa τ hty cn hcn a a' hLS hτ hra ga.2 t hl
-        · exact op1_step_vec S d hd lg o .v τ hty cn hcn a es hes (Or.inl rfl) hra ga.2 t hl
-        · rcases hd with rfl | hd'
-          · exact op1_step_vec S 1 (Or.inl rfl) lg o .m τ hty cn hcn a es hes (Or.inr ⟨rfl, rfl⟩)
-              hra ga.2 t hl
-          · exact op1_step_mat S d hd' lg o .m τ hty cn hcn a es hes rfl hra ga.2 t hl
+        exact (op1_dispatch S d hd lg o τa τ hty cn hcn a a' ga (ty_rank d a τa ha)).2 t hl
   | op2 o a b iha ihb =>
     simp only [ty] at hty
     cases ha : ty d a with
@@ -647,48 +699,8 @@ theorem lower_ty_sound (S : DRing K) (d : Nat) (hd : d = 1 ∨ d = 2 ∨ d = 3) 
             simp only at hl
             have ga := iha τa a' ha hla
             have gb := ihb τb b' hb hlb
-            have hra := ty_rank d a τa ha
-            have hrb := ty_rank d b τb hb
-            -- a scalar-typed argument next to a non-scalar one is ill-typed
-            have hsx : ∀ τ', ty2 d o .s τ' = some τ → τ' = .s := by
-              intro τ' h; cases o <;> cases τ' <;> simp_all [ty2]
-            have hxs : ∀ τ', ty2 d o τ' .s = some τ → τ' = .s := by
-              intro τ' h; cases o <;> cases τ' <;> simp_all [ty2]
-            rcases shape_cases d τa a' ga.1 with
-              ⟨hLSa, hτa⟩ | ⟨es, rfl, hes, _, rfl⟩ | ⟨es, rfl, hes, _, rfl⟩ <;>
-            rcases shape_cases d τb b' gb.1 with
-              ⟨hLSb, hτb⟩ | ⟨es', rfl, hes', _, rfl⟩ | ⟨es', rfl, hes', _, rfl⟩
-            · exact op2_step_sc_sc S d hd lg o τa τb τ hty a b a' b' hLSa hLSb hτa hτb hra hrb
-                ga.2 gb.2 t hl
-            · rcases hτa with rfl | rfl
-              · exact absurd (hsx _ hty) (by decide)
-              · exact op2_step_sc_vec S lg o τa .v τ hty a b a' es' hLSa hes' hra hrb ga.2 gb.2 t hl
-            · rcases hτa with rfl | rfl
-              · exact absurd (hsx _ hty) (by decide)
-              · exact op2_step_sc_vec S lg o τa .m τ hty a b a' es' hLSa hes' hra hrb ga.2 gb.2 t hl
-            · rcases hτb with rfl | rfl
-              · exact absurd (hxs _ hty) (by decide)
-              · exact op2_step_vec_sc S lg o .v τb τ hty a b b' es hes hLSb hra hrb ga.2 gb.2 t hl
-            · exact op2_step_vec_vec S d hd lg o .v .v τ hty a b es es' hes hes' (Or.inl rfl)
-                (Or.inl rfl) hra hrb ga.2 gb.2 t hl
-            · rcases hd with rfl | hd'
-              · exact op2_step_vec_vec S 1 (Or.inl rfl) lg o .v .m τ hty a b es es' hes hes'
-                  (Or.inl rfl) (Or.inr ⟨rfl, rfl⟩) hra hrb ga.2 gb.2 t hl
-              · exact op2_step_vec_mat S d hd' lg o .v .m τ hty a b es es' hes hes' rfl rfl hra hrb
-                  ga.2 gb.2 t hl
-            · rcases hτb with rfl | rfl
-              · exact absurd (hxs _ hty) (by decide)
-              · exact op2_step_vec_sc S lg o .m τb τ hty a b b' es hes hLSb hra hrb ga.2 gb.2 t hl
-            · rcases hd with rfl | hd'
-              · exact op2_step_vec_vec S 1 (Or.inl rfl) lg o .m .v τ hty a b es es' hes hes'
-                  (Or.inr ⟨rfl, rfl⟩) (Or.inl rfl) hra hrb ga.2 gb.2 t hl
-              · exact op2_step_mat_vec S d hd' lg o .m .v τ hty a b es es' hes hes' rfl rfl hra hrb
-                  ga.2 gb.2 t hl
-            · rcases hd with rfl | hd'
-              · exact op2_step_vec_vec S 1 (Or.inl rfl) lg o .m .m τ hty a b es es' hes hes'
-                  (Or.inr ⟨rfl, rfl⟩) (Or.inr ⟨rfl, rfl⟩) hra hrb ga.2 gb.2 t hl
-              · exact op2_step_mat_mat S d hd' lg o .m .m τ hty a b es es' hes hes' rfl rfl hra hrb
-                  ga.2 gb.2 t hl
+            exact (op2_dispatch S d hd lg o τa τb τ hty a b a' b' ga gb (ty_rank d a τa ha)
+              (ty_rank d b τb hb)).2 t hl
   | nil => cases ‹_ ∈ []›
   | cons a as iha ihas =>
     rename_i x hx τ' t' hτ' hl'
@@ -697,30 +709,167 @@ theorem lower_ty_sound (S : DRing K) (d : Nat) (hd : d = 1 ∨ d = 2 ∨ d = 3) 
     · exact ihas x hx τ' t' hτ' hl'
   | _ => simp [ty] at hty
 
-/-- the differential ring with one element (only used to read off statements that do not mention
-    the ring, such as the shape of a lowered value) -/
-def trivialRing : DRing PUnit where
-  D := fun _ _ => PUnit.unit
-  D_add := fun _ _ _ => rfl
-  D_mul := fun _ _ _ => rfl
-  D_comm := fun _ _ _ => rfl
-  D_rat := fun _ _ => rfl
-  sf := fun _ => PUnit.unit
-  vf := fun _ _ => PUnit.unit
-  cst := fun _ => PUnit.unit
-  D_cst := fun _ _ => rfl
-  sym := fun _ => PUnit.unit
-  D_sym := fun _ _ => Subsingleton.elim _ _
-  fn := fun _ _ => PUnit.unit
-  fn' := fun _ _ => PUnit.unit
-  D_fn := fun _ _ _ => rfl
-  inv := fun _ => PUnit.unit
-  rpow := fun _ _ => PUnit.unit
-  D_rpow := fun _ _ _ => rfl
-  rpow_pred := fun _ _ _ => rfl
-
 theorem lower_ty_shape (d : Nat) (hd : d = 1 ∨ d = 2 ∨ d = 3) (lg : Bool) (e : E) (τ : Ty) (t : E)
     (hty : ty d e = some τ) (hl : lower d lg e = .ok t) : hasShape d τ t = true :=
   (lower_ty_sound trivialRing d hd lg e τ t hty hl).1
+
+/-! ### on the fragment, in dimension 2 and 3, lowering does not fail -/
+
+theorem forall2_right_all (P : E → Prop) (as ts : List E)
+    (F : List.Forall₂ (fun (_ : E) t => P t) as ts) : ∀ x ∈ ts, P x := by
+  induction F with
+  | nil => intro x hx; cases hx
+  | @cons _ t _ ts h1 _ ih =>
+    intro x hx
+    rcases List.mem_cons.mp hx with rfl | hx
+    · exact h1
+    · exact ih x hx
+
+theorem lowerList_total (d : Nat) (lg : Bool) (as : List E)
+    (h : ∀ a ∈ as, ∃ t, lower d lg a = .ok t) : ∃ ts, lowerList d lg as = .ok ts := by
+  induction as with
+  | nil => exact ⟨[], rfl⟩
+  | cons a as ih =>
+    obtain ⟨t, ht⟩ := h a (by simp)
+    obtain ⟨ts, hts⟩ := ih (fun x hx => h x (by simp [hx]))
+    exact ⟨t :: ts, by simp [lowerList, ht, hts, bind, Except.bind]⟩
+
+/-- **totality**: in dimension 2 and 3 the dispatcher returns a value for every well-typed
+    expression of the fragment (in dimension 1 it does not: `grad(h) + F`) -/
+theorem lower_ty_total (d : Nat) (hd : d = 2 ∨ d = 3) (lg : Bool) (e : E) (τ : Ty)
+    (hty : ty d e = some τ) : ∃ t, lower d lg e = .ok t := by
+  have hd3 : d = 1 ∨ d = 2 ∨ d = 3 := Or.inr hd
+  have hd1 : d ≠ 1 := by omega
+  have hd1' : 1 ≤ d := by omega
+  induction e using E.rec
+    (motive_2 := fun as => ∀ a ∈ as, ∀ τ, ty d a = some τ → ∃ t, lower d lg a = .ok t)
+    generalizing τ with
+  | num p q => simp [lower]
+  | cst n => simp [lower]
+  | sym n => simp [lower]
+  | sf n k => simp [lower]
+  | vf n k => simp [lower]
+  | idx b k _ => cases b <;> simp [lower]
+  | add as ih =>
+    simp only [ty] at hty
+    cases as with
+    | nil => simp [tyAdd] at hty
+    | cons a rest =>
+      simp only [tyAdd] at hty
+      cases ha : ty d a with
+      | none => rw [ha] at hty; simp at hty
+      | some τa =>
+        rw [ha] at hty
+        simp only [Option.bind_some] at hty
+        split at hty
+        · rename_i hall
+          simp only [Option.some.injEq] at hty; subst hty
+          have hall' : ∀ x ∈ a :: rest, ty d x = some τa := by
+            intro x hx
+            rcases List.mem_cons.mp hx with rfl | hx
+            · exact ha
+            · exact tyAll_mem d τa rest hall x hx
+          obtain ⟨ts, hts⟩ := lowerList_total d lg (a :: rest) (fun x hx => ih x hx τa (hall' x hx))
+          have F := lowerList_spec d lg (a :: rest) ts hts
+          cases F with
+          | cons hat Frest =>
+            rename_i ta trest
+            have hsa := lower_ty_shape d hd3 lg a τa ta ha hat
+            have Fs : List.Forall₂ (fun (_ : E) t => hasShape d τa t = true) rest trest :=
+              forall2_members d lg _ rest trest Frest (fun x hx tx hlx =>
+                lower_ty_shape d hd3 lg x τa tx (tyAll_mem d τa rest hall x hx) hlx)
+            have hs : ∀ x ∈ trest, hasShape d τa x = true := forall2_right_all _ rest trest Fs
+            obtain ⟨t, ht⟩ := foldAdd_total trivialRing d hd1 τa trest ta hsa hs
+            exact ⟨t, by simp [lower, hts, foldV, ht, bind, Except.bind]⟩
+        · cases hty
+  | mul as ih =>
+    simp only [ty] at hty
+    cases as with
+    | nil => simp [tyMul] at hty
+    | cons a rest =>
+      simp only [tyMul] at hty
+      cases ha : ty d a with
+      | none => rw [ha] at hty; simp at hty
+      | some τa =>
+        rw [ha] at hty
+        simp only [Option.bind_some] at hty
+        have hmem : ∀ x ∈ rest, ∃ τx, ty d x = some τx := by
+          intro x hx
+          cases hx' : ty d x with
+          | some τx => exact ⟨τx, rfl⟩
+          | none =>
+            exfalso
+            have : ∀ (l : List E) (τ0 : Ty), x ∈ l → tyMulAcc d τ0 l ≠ some τ := by
+              intro l
+              induction l with
+              | nil => intro _ hm; cases hm
+              | cons y ys ihl =>
+                intro τ0 hm
+                simp only [tyMulAcc]
+                rcases List.mem_cons.mp hm with rfl | hm
+                · simp [hx']
+                · cases hy : ty d y with
+                  | none => simp
+                  | some τy =>
+                    simp only [Option.bind_some]
+                    cases hmm : tmul τ0 τy with
+                    | none => simp
+                    | some τ'' => simpa using ihl τ'' hm
+            exact this rest τa hx hty
+        obtain ⟨ts, hts⟩ := lowerList_total d lg (a :: rest) (fun x hx => by
+          rcases List.mem_cons.mp hx with rfl | hx'
+          · exact ih x hx τa ha
+          · obtain ⟨τx, hτx⟩ := hmem x hx'
+            exact ih x hx τx hτx)
+        have F := lowerList_spec d lg (a :: rest) ts hts
+        cases F with
+        | cons hat Frest =>
+          rename_i ta trest
+          have ga := lower_ty_sound trivialRing d hd3 lg a τa ta ha hat
+          have Fg : List.Forall₂ (fun a t => ∃ τa, ty d a = some τa ∧ Good trivialRing d lg τa a t) rest trest :=
+            forall2_members d lg _ rest trest Frest (fun x hx tx hlx => by
+              obtain ⟨τx, hτx⟩ := hmem x hx
+              exact ⟨τx, hτx, lower_ty_sound trivialRing d hd3 lg x τx tx hτx hlx⟩)
+          obtain ⟨τs, hF, hτs, _⟩ := mul_members trivialRing d hd1' lg rest trest Fg τa τ hty
+          obtain ⟨t, ht⟩ := foldMul_total trivialRing d trest τs ta τa τ ga.1 hF hτs
+          exact ⟨t, by simp [lower, hts, foldV, ht, bind, Except.bind]⟩
+  | op1 o a iha =>
+    simp only [ty] at hty
+    cases ha : ty d a with
+    | none => rw [ha] at hty; simp at hty
+    | some τa =>
+      rw [ha] at hty
+      simp only [Option.bind_some] at hty
+      obtain ⟨cn, hcn⟩ := ty1_class d o τa τ hty
+      obtain ⟨a', hla⟩ := iha τa ha
+      have ga := lower_ty_sound trivialRing d hd3 lg a τa a' ha hla
+      obtain ⟨t, ht⟩ := (op1_dispatch trivialRing d hd3 lg o τa τ hty cn hcn a a' ga (ty_rank d a τa ha)).1
+      exact ⟨t, by rw [lower_op1 d lg o a cn hcn]; simp only [hla, bind, Except.bind]; exact ht⟩
+  | op2 o a b iha ihb =>
+    simp only [ty] at hty
+    cases ha : ty d a with
+    | none => rw [ha] at hty; simp at hty
+    | some τa =>
+      rw [ha] at hty
+      simp only [Option.bind_some] at hty
+      cases hb : ty d b with
+      | none => rw [hb] at hty; simp at hty
+      | some τb =>
+        rw [hb] at hty
+        simp only [Option.bind_some] at hty
+        obtain ⟨a', hla⟩ := iha τa ha
+        obtain ⟨b', hlb⟩ := ihb τb hb
+        have ga := lower_ty_sound trivialRing d hd3 lg a τa a' ha hla
+        have gb := lower_ty_sound trivialRing d hd3 lg b τb b' hb hlb
+        obtain ⟨t, ht⟩ := (op2_dispatch trivialRing d hd3 lg o τa τb τ hty a b a' b' ga gb
+          (ty_rank d a τa ha) (ty_rank d b τb hb)).1
+        exact ⟨t, by rw [lower_op2 d lg o a b]; simp only [hla, hlb, bind, Except.bind]; exact ht⟩
+  | nil => cases ‹_ ∈ []›
+  | cons a as iha ihas =>
+    rename_i x hx τ' hτ'
+    rcases List.mem_cons.mp hx with rfl | hx
+    · exact iha τ' hτ'
+    · exact ihas x hx τ' hτ'
+  | _ => simp [ty] at hty
 
 end Sympde.Lower
